@@ -32,9 +32,44 @@ def rB : Result := ⟨[(0, 1), (1, 1)], 2, false⟩
 /-- value 0 -/
 def rZ : Result := ⟨[(0, 0), (1, 0)], 0, false⟩
 /-- a spin result, value 1/2 -/
-def rS : Result := ⟨[(0, 1), (1, -1)], 1 / 2, true⟩
+def rS : Result := ⟨[(0, 1), (1, -1)], .fin (1 / 2), true⟩
 
-/-! ## T13.1 — the invariant -/
+/-- value `+inf` (`float('inf')`, the usual tag of an infeasible state) -/
+def rP : Result := ⟨[(0, 1), (1, 0)], .pinf, false⟩
+/-- value `-inf` -/
+def rM : Result := ⟨[(0, 1), (1, 1)], .ninf, true⟩
+/-- a huge finite value -/
+def rH : Result := ⟨[(0, 0)], .fin (10 ^ 30), false⟩
+
+/-! ## T13.1 — the invariant
+
+Values range over `EVal` = ℚ ∪ {+inf, -inf} (`Qv/Model/EVal.lean`; a linear order, `Qv/Proofs/Results.lean`):
+every theorem below holds for collections holding `float('inf')` / `-float('inf')` values, ties and huge values
+alike.  NaN is outside the model (no least element exists with a NaN in the collection). -/
+
+/-- **the rescan** `_recompute_best` (used by `remove` / `pop` of the best and by item / slice assignment and
+deletion) returns `None` *only* on the empty list — also when every remaining value is `+inf` — and otherwise
+an element of least value. -/
+theorem recompute_spec (l : List Result) :
+    (recompute l = none ↔ l = []) ∧
+    ∀ b, recompute l = some b → b ∈ l ∧ ∀ r ∈ l, b.value ≤ r.value :=
+  inv_recompute l
+
+example : recompute [rP, rP] = some rP ∧ recompute [rP, rM, rH] = some rM ∧ recompute [rH, rP] = some rH := by
+  decide +kernel
+
+/-- every recompute path on a collection whose remaining values are all `+inf`: `best` is that element, not `None` -/
+example :
+    (run Impl.fixed [.pop 0] (start [rA, rP])).cur.best = some rP ∧
+    (run Impl.fixed [.remove rA] (start [rA, rP, rP])).cur.best = some rP ∧
+    (run Impl.fixed [.delItem 0] (start [rA, rP])).cur.best = some rP ∧
+    (run Impl.fixed [.setItem 0 rP] (start [rA, rP])).cur.best = some rP ∧
+    (run Impl.fixed [.delSlice ⟨none, some 1, none⟩] (start [rA, rP])).cur.best = some rP ∧
+    (run Impl.fixed [.setSlice ⟨some 0, some 1, none⟩ [rP]] (start [rA])).cur.best = some rP ∧
+    (run Impl.fixed [.applyFunction (fun r => ⟨r.state, .pinf, r.spin⟩), .pop (-1)] (start [rA, rB])).cur.best
+      = some ⟨rA.state, .pinf, false⟩ ∧
+    (run Impl.fixed [.append rM, .pop (-1)] (start [rP, rH])).cur.best = some rH := by
+  decide +kernel
 
 /-- **Every derived collection satisfies the invariant, whatever the state of the receiver** (all of
 them are built by the constructor): `AnnealResults(l)`, `copy`, `+`, `*`, slicing, `filter`,
@@ -115,8 +150,8 @@ theorem toSpin_toBoolean (s c : Coll) (hs : ∀ r ∈ s.items, r.spin = true) (h
   exact ⟨construct s.items, by simp [Coll.toSpin, construct_items, this, bind, Except.bind, pure, Except.pure],
     construct_items _⟩
 
-example : (construct [rS, rS]).toBoolean = .ok (construct [⟨[(0, 0), (1, 1)], 1 / 2, false⟩,
-    ⟨[(0, 0), (1, 1)], 1 / 2, false⟩]) := by decide +kernel
+example : (construct [rS, rS]).toBoolean = .ok (construct [⟨[(0, 0), (1, 1)], .fin (1 / 2), false⟩,
+    ⟨[(0, 0), (1, 1)], .fin (1 / 2), false⟩]) := by decide +kernel
 
 /-- `sort()` yields a permutation of the items in non-decreasing order of value, `sort(reverse=True)`
 one in non-increasing order; `best` is untouched -/
@@ -130,8 +165,9 @@ theorem sort_sorted_perm (s : Coll) :
    sortItems_sorted_rev s.items, rfl, rfl⟩
 
 example : ((construct [rB, rA]).sort false).items = [rA, rB] := by
+  have h21 : ¬ ((2 : EVal) ≤ 1) := by decide
   simp [Coll.sort, sortItems, construct_items, List.mergeSort, List.MergeSort.Internal.splitInTwo,
-    rA, rB]
+    rA, rB, List.merge, h21]
 
 /-! ## Documentation: the code *before* the fix (`Impl.beforeFix`)
 
